@@ -183,6 +183,7 @@ class Machine:
                     name, args = g[1], ()
                 elif g[0] == 'f':
                     name, args = g[1], g[2]
+                    resolve(g, s, None, 300)
                 else:
                     raise Unspecified('non-callable goal')
                 groups = self.groups_for(name, args)
